@@ -524,6 +524,9 @@ impl Gen {
             11 => {
                 let Some(p) = self.pick_running(w) else { return Cmd::Join { p: 0 } };
                 let subs = w.nodes[p].as_ref().unwrap().subs.len();
+                if self.r.chance(0.25) {
+                    return Cmd::Watch { p, attach: w.nodes[p].as_ref().unwrap().watch_rx.is_none() };
+                }
                 if subs < 8 && (subs == 0 || self.r.chance(0.6)) {
                     Cmd::Subscribe { p, prefix: self.r.pick(&self.k.prefixes).clone() }
                 } else if self.r.chance(0.5) {
